@@ -291,6 +291,9 @@ func (c *Ctx) Finish() int {
 		fmt.Println("CHECK-BROKEN cannot write evidence:", err)
 		return 2
 	}
+	if violated > 0 {
+		exit = 1 // a concrete violation takes precedence over "could not decide everything"
+	}
 	for _, l := range lines {
 		fmt.Println(l)
 	}
